@@ -4,7 +4,6 @@ import (
 	"fmt"
 	"go/token"
 	"go/types"
-	"sort"
 	"strings"
 
 	"golang.org/x/tools/go/ssa"
@@ -164,7 +163,7 @@ func (c *Ctx) checkSubstMatrices() {
 // checkBacktrackCounters: per block that lengthens the alignment.
 func (c *Ctx) checkBacktrackCounters() {
 	L := c.L
-	L.Rule("traceback-step", "every block of backTrack_SW that increments the alignment length appends exactly one byte to each aligned row (the two bytes are never both the gap constant) and increments exactly one of nbgaps / nbmatches / nbmismatches, either in the same block or in each of the two arms of the branch that ends it; no such counter is incremented in any other block")
+	L.Rule("traceback-step", "on every path through backTrack_SW the number of bytes appended to each aligned row and the number of increments of nbgaps / nbmatches / nbmismatches equal the number of increments of the alignment length (dataflow on the differences, zero at every return, bounded in every loop); a column never pairs two gap constants")
 	r := c.fn("align", "*pwaligner", "backTrack_SW")
 	if !r.ok() {
 		return
@@ -187,17 +186,6 @@ func (c *Ctx) checkBacktrackCounters() {
 		return ok && k == 1
 	}
 	counters := []string{"nbgaps", "nbmatches", "nbmismatches"}
-	countIncs := func(b *ssa.BasicBlock) (n int, which []string) {
-		for _, in := range b.Instrs {
-			for _, f := range counters {
-				if isInc(in, f) {
-					n++
-					which = append(which, f)
-				}
-			}
-		}
-		return
-	}
 	// which local slices end up in seq1ali / seq2ali
 	rowOf := map[ssa.Value]string{}
 	allInstrs(fn, func(in ssa.Instruction) {
@@ -231,80 +219,144 @@ func (c *Ctx) checkBacktrackCounters() {
 		}
 		return nil, false
 	}
-	owned := map[*ssa.BasicBlock]bool{}
-	nSteps := 0
+	// Balance along every path: the numbers of bytes appended to row 1, of bytes appended to row 2
+	// and of counter increments each stay equal to the number of length increments — as a forward
+	// dataflow on the three differences, which must all be zero at every return. A loop whose
+	// iteration is not balanced makes a difference grow without bound and is reported. Where in
+	// the iteration the four events sit (one block, the arms of a branch, a helper expanded in the
+	// view) does not matter.
+	type vec [3]int8
+	classify := func(in ssa.Instruction) (dl, d1, d2, dc int8) {
+		if isInc(in, "length") {
+			dl = 1
+		}
+		for _, f := range counters {
+			if isInc(in, f) {
+				dc++
+			}
+		}
+		if call, ok := in.(*ssa.Call); ok {
+			switch rowOf[call] {
+			case "seq1ali":
+				d1 = 1
+			case "seq2ali":
+				d2 = 1
+			}
+		}
+		return
+	}
+	nLenTotal := 0
+	allInstrs(fn, func(in ssa.Instruction) {
+		if isInc(in, "length") {
+			nLenTotal++
+		}
+	})
+	inS := map[*ssa.BasicBlock]map[vec]bool{fn.Blocks[0]: {vec{}: true}}
+	work := []*ssa.BasicBlock{fn.Blocks[0]}
+	unbounded := ""
+	for len(work) > 0 && unbounded == "" {
+		b := work[0]
+		work = work[1:]
+		out := map[vec]bool{}
+		for v := range inS[b] {
+			cur := v
+			for _, in := range b.Instrs {
+				dl, d1, d2, dc := classify(in)
+				cur[0] += d1 - dl
+				cur[1] += d2 - dl
+				cur[2] += dc - dl
+			}
+			for k := range cur {
+				if cur[k] > 3 || cur[k] < -3 {
+					what := []string{"bytes appended to row 1", "bytes appended to row 2", "counter increments"}[k]
+					pos := "-"
+					for _, in := range b.Instrs {
+						if in.Pos().IsValid() {
+							pos = c.P.Pos(in.Pos())
+							break
+						}
+					}
+					unbounded = fmt.Sprintf("around block %s (%s) the number of %s drifts away from the number of length increments", b.Comment, pos, what)
+				}
+			}
+			out[cur] = true
+		}
+		for _, sc := range b.Succs {
+			m := inS[sc]
+			if m == nil {
+				m = map[vec]bool{}
+				inS[sc] = m
+			}
+			grew := false
+			for v := range out {
+				if !m[v] {
+					m[v] = true
+					grew = true
+				}
+			}
+			if grew {
+				work = append(work, sc)
+			}
+		}
+	}
+	balanced := unbounded == ""
+	det := unbounded
+	if balanced {
+		for _, b := range fn.Blocks {
+			if _, isRet := b.Instrs[len(b.Instrs)-1].(*ssa.Return); !isRet {
+				continue
+			}
+			for v := range inS[b] {
+				cur := v
+				for _, in := range b.Instrs {
+					dl, d1, d2, dc := classify(in)
+					cur[0] += d1 - dl
+					cur[1] += d2 - dl
+					cur[2] += dc - dl
+				}
+				if cur != (vec{}) {
+					balanced = false
+					det = fmt.Sprintf("a path reaches the return with (row 1 bytes, row 2 bytes, counter increments) − length increments = (%d, %d, %d)", cur[0], cur[1], cur[2])
+				}
+			}
+		}
+	}
+	L.Check(balanced && nLenTotal >= 3, "traceback-step", r.label, "rows, counters and length advance together", c.P.Pos(fn.Pos()),
+		fmt.Sprintf("%d length increments; on every path to the return each row got one byte and one counter was incremented per length increment", nLenTotal),
+		"a step that lengthens the alignment is unbalanced: "+det+" (rows of unequal length, or counts that do not add up)")
+	// an aligned column never pairs two gaps: wherever one straight-line piece of code appends to
+	// both rows, the two bytes are not both the gap constant
+	nPairs := 0
 	for _, b := range fn.Blocks {
-		nLen := 0
-		for _, in := range b.Instrs {
-			if isInc(in, "length") {
-				nLen++
-			}
-		}
-		if nLen == 0 {
-			continue
-		}
-		nSteps++
-		name := fmt.Sprintf("step block %s", b.Comment)
-		pos := "-"
-		for _, in := range b.Instrs {
-			if isInc(in, "length") {
-				pos = c.P.Pos(in.Pos())
-			}
-		}
-		// appends
-		n1, n2 := 0, 0
 		var v1, v2 ssa.Value
 		for _, in := range b.Instrs {
 			if call, ok := in.(*ssa.Call); ok {
 				switch rowOf[call] {
 				case "seq1ali":
-					n1++
 					v1, _ = appended(call)
 				case "seq2ali":
-					n2++
 					v2, _ = appended(call)
 				}
 			}
 		}
-		bothGap := false
-		if v1 != nil && v2 != nil {
-			k1, ok1 := constInt(v1)
-			k2, ok2 := constInt(v2)
-			bothGap = ok1 && ok2 && k1 == '-' && k2 == '-'
-		}
-		// counters
-		owned[b] = true
-		nc, which := countIncs(b)
-		okCnt := nc == 1
-		how := strings.Join(which, ",")
-		if nc == 0 {
-			if _, isIf := b.Instrs[len(b.Instrs)-1].(*ssa.If); isIf {
-				a0, w0 := countIncs(b.Succs[0])
-				a1, w1 := countIncs(b.Succs[1])
-				owned[b.Succs[0]], owned[b.Succs[1]] = true, true
-				okCnt = a0 == 1 && a1 == 1 && len(b.Succs[0].Preds) == 1 && len(b.Succs[1].Preds) == 1
-				how = strings.Join(w0, ",") + " | " + strings.Join(w1, ",")
-			}
-		}
-		okAll := nLen == 1 && n1 == 1 && n2 == 1 && !bothGap && okCnt
-		L.Check(okAll, "traceback-step", r.label, name+" #"+fmt.Sprint(nSteps), pos,
-			"length++ with one byte appended to each row and exactly one counter ("+how+")",
-			fmt.Sprintf("a step that lengthens the alignment is unbalanced (length++ x%d, appends to row1/row2: %d/%d, both gap: %v, counters: %s): rows of unequal length, an all-gap column, or counts that do not add up", nLen, n1, n2, bothGap, how))
-	}
-	// no stray counter increments
-	var stray []string
-	for _, b := range fn.Blocks {
-		if owned[b] {
+		if v1 == nil || v2 == nil {
 			continue
 		}
-		if n, which := countIncs(b); n > 0 {
-			stray = append(stray, strings.Join(which, ","))
+		nPairs++
+		k1, ok1 := constInt(v1)
+		k2, ok2 := constInt(v2)
+		bothGap := ok1 && ok2 && k1 == '-' && k2 == '-'
+		pos := "-"
+		for _, in := range b.Instrs {
+			if in.Pos().IsValid() {
+				pos = c.P.Pos(in.Pos())
+				break
+			}
 		}
+		L.Check(!bothGap, "traceback-step", r.label, fmt.Sprintf("column #%d", nPairs), pos, "the two bytes of the column are not both the gap", "an all-gap column is appended")
 	}
-	sort.Strings(stray)
-	L.Check(len(stray) == 0, "traceback-step", r.label, "no counter incremented outside a step", c.P.Pos(fn.Pos()), "all match/mismatch/gap increments belong to a step", "counter incremented outside a step: "+strings.Join(stray, "; "))
 	// counters are not written anywhere else in the package (except reset in constructors)
-	L.Floor("traceback-step", 4, "three step blocks + stray check")
+	L.Floor("traceback-step", 2, "balance + at least one column")
 }
 
 // checkReverseMatched: ATG mode reverses seq1, seq2 before the fill and after the trace-back.
